@@ -22,18 +22,18 @@ BASE = tempfile.mkdtemp(prefix="c05_")
 atexit.register(shutil.rmtree, BASE, True)
 
 
-def pool_weights(st, beta):
+def pool_weights(st, beta, dtype=np.longdouble):
     """independent evaluation (long double) of the pool's normalised balance-heuristic weights and log-evidence at `beta`, from the
     raw stored history — not through the library's own compute_logw_and_logz"""
-    ls = [np.asarray(a, dtype=np.longdouble) for a in st._history["logl"]]
-    bt = np.asarray(st._history["beta"], dtype=np.longdouble)
-    zs = np.asarray(st._history["logz"], dtype=np.longdouble)
-    n = np.array([len(a) for a in ls], dtype=np.longdouble)
+    ls = [np.asarray(a, dtype=dtype) for a in st._history["logl"]]
+    bt = np.asarray(st._history["beta"], dtype=dtype)
+    zs = np.asarray(st._history["logz"], dtype=dtype)
+    n = np.array([len(a) for a in ls], dtype=dtype)
     l = np.concatenate(ls)
     comp = l[:, None] * bt[None, :] - zs[None, :] + np.log(n / n.sum())[None, :]
     mx = comp.max(axis=1)
     lmix = mx + np.log(np.exp(comp - mx[:, None]).sum(axis=1))
-    u = np.longdouble(beta) * l - lmix
+    u = dtype(beta) * l - lmix
     m = u.max()
     L = m + np.log(np.exp(u - m).sum())
     w = np.exp(u - L)
@@ -47,18 +47,18 @@ def ess_of(w):
 
 def ess_limit(st, beta_prev, target):
     """largest beta in [beta_prev, 1] with ESS_pool >= target (the ESS is not assumed monotone: first crossing from below)"""
-    grid = np.unique(np.concatenate([np.linspace(beta_prev, 1.0, 400), beta_prev + (1 - beta_prev) * np.logspace(-8, 0, 200)]))
-    if ess_of(pool_weights(st, beta_prev)[0]) < target:
+    grid = np.unique(np.concatenate([np.linspace(beta_prev, 1.0, 80), beta_prev + (1 - beta_prev) * np.logspace(-8, 0, 60)]))
+    if ess_of(pool_weights(st, beta_prev, np.float64)[0]) < target:
         return beta_prev
     last = beta_prev
     for b in grid[1:]:
-        if ess_of(pool_weights(st, b)[0]) >= target:
+        if ess_of(pool_weights(st, b, np.float64)[0]) >= target:
             last = b
         else:
             lo, hi = last, b
-            for _ in range(60):
+            for _ in range(45):
                 mid = 0.5 * (lo + hi)
-                if ess_of(pool_weights(st, mid)[0]) >= target:
+                if ess_of(pool_weights(st, mid, np.float64)[0]) >= target:
                     lo = mid
                 else:
                     hi = mid
